@@ -14,28 +14,28 @@ open DI.Py
 def util_xopen (truth : Term → Bool) : Out :=
   if truth (Term.app "NotIn" [(Term.sym "'b'"), (Term.sym "mode")]) then
     let eff0 : Term := (Term.app ".setdefault" [(Term.sym "kwargs"), (Term.sym "'encoding'"), (Term.sym "'utf-8'")]);
-    if truth (Term.app "str(path).endswith" [(Term.sym "'.bz2'")]) then
+    if truth (Term.app ".endswith" [(Term.app "str" [(Term.sym "path")]), (Term.sym "'.bz2'")]) then
       let eff1 : Term := (Term.app ".setdefault" [(Term.sym "kwargs"), (Term.sym "'compresslevel'"), (Term.int (6 : Int))]);
       Out.ret [eff0, eff1] (Term.app "bz2.open" [(Term.sym "path"), (Term.sym "mode"), (Term.app "=**" [(Term.sym "kwargs")])])
     else
-      if truth (Term.app "str(path).endswith" [(Term.sym "'.gz'")]) then
+      if truth (Term.app ".endswith" [(Term.app "str" [(Term.sym "path")]), (Term.sym "'.gz'")]) then
         let eff1 : Term := (Term.app ".setdefault" [(Term.sym "kwargs"), (Term.sym "'compresslevel'"), (Term.int (6 : Int))]);
         Out.ret [eff0, eff1] (Term.app "gzip.open" [(Term.sym "path"), (Term.sym "mode"), (Term.app "=**" [(Term.sym "kwargs")])])
       else
-        if truth (Term.app "str(path).endswith" [(Term.sym "'.xz'")]) then
+        if truth (Term.app ".endswith" [(Term.app "str" [(Term.sym "path")]), (Term.sym "'.xz'")]) then
           Out.ret [eff0] (Term.app "lzma.open" [(Term.sym "path"), (Term.sym "mode"), (Term.app "=**" [(Term.sym "kwargs")])])
         else
           Out.ret [eff0] (Term.app "open" [(Term.sym "path"), (Term.sym "mode"), (Term.app "=**" [(Term.sym "kwargs")])])
   else
-    if truth (Term.app "str(path).endswith" [(Term.sym "'.bz2'")]) then
+    if truth (Term.app ".endswith" [(Term.app "str" [(Term.sym "path")]), (Term.sym "'.bz2'")]) then
       let eff0 : Term := (Term.app ".setdefault" [(Term.sym "kwargs"), (Term.sym "'compresslevel'"), (Term.int (6 : Int))]);
       Out.ret [eff0] (Term.app "bz2.open" [(Term.sym "path"), (Term.sym "mode"), (Term.app "=**" [(Term.sym "kwargs")])])
     else
-      if truth (Term.app "str(path).endswith" [(Term.sym "'.gz'")]) then
+      if truth (Term.app ".endswith" [(Term.app "str" [(Term.sym "path")]), (Term.sym "'.gz'")]) then
         let eff0 : Term := (Term.app ".setdefault" [(Term.sym "kwargs"), (Term.sym "'compresslevel'"), (Term.int (6 : Int))]);
         Out.ret [eff0] (Term.app "gzip.open" [(Term.sym "path"), (Term.sym "mode"), (Term.app "=**" [(Term.sym "kwargs")])])
       else
-        if truth (Term.app "str(path).endswith" [(Term.sym "'.xz'")]) then
+        if truth (Term.app ".endswith" [(Term.app "str" [(Term.sym "path")]), (Term.sym "'.xz'")]) then
           Out.ret [] (Term.app "lzma.open" [(Term.sym "path"), (Term.sym "mode"), (Term.app "=**" [(Term.sym "kwargs")])])
         else
           Out.ret [] (Term.app "open" [(Term.sym "path"), (Term.sym "mode"), (Term.app "=**" [(Term.sym "kwargs")])])
